@@ -37,7 +37,7 @@ TRUSTED_BASE = [
     "OCaml driver ocaml/driver.ml (hex<->Z, line protocol), OCaml 4.13.1",
     "Rust harness harness/src/*.rs (catch_unwind, line protocol) and rustc semantics of primitive integer operations",
     "hooks: #[cfg(fpdec_verif)] verif_hooks in fpdec-core (repo commit fbb9d73): one-line forwarders to the private kernels",
-    "translator tools/rs2v.py (Rust subset -> Gallina: 27 integer kernels of fpdec-core -> coq/gen/GenCore.v, 39 Decimal-level functions of src/ -> coq/gen/GenDec.v, 226 macro-generated integer-operand forms -> coq/gen/GenInt.v, 20 integer conversions -> coq/gen/GenConv.v, regenerated on every run; "
+    "translator tools/rs2v.py (Rust subset -> Gallina: 29 integer kernels of fpdec-core -> coq/gen/GenCore.v, 44 Decimal-level functions of src/ -> coq/gen/GenDec.v, 226 macro-generated integer-operand forms -> coq/gen/GenInt.v, 20 integer conversions -> coq/gen/GenConv.v, regenerated on every run; "
     "syntax-directed, conventions listed in its header; assumes every variable holds a value in the range of its Rust type); "
     "the tie lemmas coq/proofs/GenTie*.v prove each translated function equal to the hand-written model",
     "structural tie: tools/fingerprint.py + tools/source_fingerprints.json (item-level digests of the Rust text the model was written from; updated by hand only)",
@@ -297,6 +297,9 @@ TIE_GROUPS = {
     "GenTieDecRem": ["rem", "Rem::rem", "CheckedRem::checked_rem"],
     # the integer-operand forms (macro-generated; macro items are never excused, the groups are built and reported)
     "GenTieIntAdd": [], "GenTieIntMul": [], "GenTieIntDiv": [], "GenTieIntRem": [], "GenTieIntCmp": [], "GenTieIntForms": [],
+    "GenTieDecRatio": ["gcd_special", "AsIntegerRatio::as_integer_ratio"],
+    "GenTieSwar": ["chunk_contains_8_digits", "chunk_to_u64"],
+    "GenTieDecStr": ["FromStr::from_str"],
     "GenTieConv": ["TryFrom_by_i128::try_from", "TryFrom_u128::try_from"],
 }
 
